@@ -142,6 +142,14 @@ def main(tier, replay=None):
             refs[var["name"]] = ref
             camp.run([ref, var], var["name"].replace("-", "_").replace("+", "_"))
             stats["histories"] += 1
+        # 3. spec -> implementation: behaviours of MC_Tower with restarts between the actions (TLC -simulate), executed on the
+        # real tower; what follows a restart is judged like what follows a crash
+        mcs, mcstats = mc_tower.replay_scenarios(PID, tier, seed(), n_quick=24, n_thorough=300)
+        for sc in mcs:
+            sc["name"] = sc["name"] + "@mc"
+        if mcs:
+            camp.run(mcs, "mcreplay")
+        stats["mc_tower_replay"] = mcstats
     for t in camp.tags:
         if t["prop"] != PID and t.get("after_crash") and t["prop"] in ("C01", "C02", "C04", "C07", "C09") and "@" in t["scenario"]["name"]:
             # after the restart every block not finished before the crash is answered exactly as the specification says
@@ -192,6 +200,7 @@ def main(tier, replay=None):
         "crash_points_in_histories": stats["crash_points_total"],
         "crash_points_exercised": stats["crash_points_run"],
         "crash_point_labels": stats["labels"],
+        "mc_tower_behaviours_with_restarts_replayed": stats.get("mc_tower_replay"),
         "impl_events_validated": camp.events,
         "events_by_action": camp.acts,
         "behaviour_observed_in_validated_traces": camp.happened,
